@@ -263,3 +263,5 @@ func splitKey(key string) (ns, name string) {
 	}
 	return "", key
 }
+
+func secs(n int) time.Duration { return time.Duration(n) * time.Second }
